@@ -970,6 +970,87 @@ fn sweep_junction(ctx: &Ctx, tabs: &Tables, thorough: bool) -> Tally {
     t
 }
 
+/// real zones of the vendored corpus: local readings around every transition (both local images +-1 s, gap/fold middles)
+fn sweep_corpus(ctx: &Ctx, light: bool) -> Tally {
+    let cyc = ctx.cyc;
+    let (zones, skipped) = crate::corpus::model_zones(cyc);
+    let t = zones
+        .par_iter()
+        .enumerate()
+        .map(|(zi, (path, z))| {
+            let mut tl = Tally::default();
+            if light && zi % 4 != 0 {
+                return tl;
+            }
+            let r = guard(|| {
+                let mut tl = Tally::default();
+                let iz = ImplZone::from_model(z).unwrap();
+                let zr = match iz.zref() {
+                    Ok(r) => r,
+                    Err(e) => {
+                        if matches!(ctx.prop, Prop::C05 | Prop::C06) {
+                            ctx.rec.violation("corpus", json!({"kind":"corpus","path":path}), json!("zone decoded by the independent reader is accepted by the constructor"), json!(err_name(&e)));
+                        }
+                        return tl;
+                    }
+                };
+                tl.zones += 1;
+                let mut ls: Vec<i64> = vec![];
+                let mut prev = z.types[0].off as i64;
+                for &(t, i) in &z.trans {
+                    let u = match z.switch_instant(t) {
+                        Some(u) => u,
+                        None => continue,
+                    };
+                    let cur = z.types[i].off as i64;
+                    for o in [prev, cur] {
+                        for d in -1i64..=1 {
+                            ls.push(u + o + d);
+                        }
+                    }
+                    ls.push(u + (prev + cur) / 2);
+                    prev = cur;
+                }
+                if let Some(MRule::Alt { spec, .. }) = &z.rule {
+                    let y0 = match z.trans.last() {
+                        Some(&(t, _)) if t > -(1 << 40) && t < (1 << 40) => cyc.gmtime(t).0.year + 1,
+                        _ => 2030,
+                    };
+                    for y in y0..y0 + 3 {
+                        for x in [spec.s(cyc, y), spec.e(cyc, y)] {
+                            for o in [spec.std_off, spec.dst_off] {
+                                for d in -1i64..=1 {
+                                    ls.push(x + o + d);
+                                }
+                            }
+                        }
+                    }
+                }
+                ls.sort();
+                ls.dedup();
+                for l in ls {
+                    if l < MIN_UNIX_TIME + (1 << 32) || l > MAX_UNIX_TIME - (1 << 32) {
+                        continue;
+                    }
+                    if let Some(f) = Fields::of_local(cyc, l, 0) {
+                        check_search(ctx, z, zr, &f, "corpus", &mut tl);
+                    }
+                }
+                tl
+            });
+            match r {
+                Ok(t) => tl = tl.merge(t),
+                Err(m) => ctx.rec.violation("corpus", json!({"kind":"corpus","path":path}), json!("no panic"), json!(m)),
+            }
+            tl
+        })
+        .reduce(Tally::default, Tally::merge);
+    let mut j = t.json();
+    j["files_not_expressible_in_the_model"] = json!(skipped);
+    ctx.rec.sub("corpus", j);
+    t
+}
+
 /// invalid searched fields / out-of-range: both entry points must fail alike (C17) ; never panic
 fn sweep_errors(ctx: &Ctx) -> Tally {
     let cyc = ctx.cyc;
@@ -1035,6 +1116,8 @@ pub fn run_sweeps(ctx: &Ctx, tabs: &Tables, thorough: bool, light: bool) -> Tall
     total = total.merge(sweep_rule_only(ctx, tabs, if thorough { 60 } else { 10 }, true, "rule_only_non_interleaving"));
     // 4. junction
     total = total.merge(sweep_junction(ctx, tabs, thorough));
+    // real zones
+    total = total.merge(sweep_corpus(ctx, light));
     // errors
     total = total.merge(sweep_errors(ctx));
 
